@@ -891,13 +891,26 @@ def diff_helper(func, arr, *args, **kwargs):
     return func._implementation(np.asarray(arr), *args, **kwargs) * ret_units
 
 
+def _boundary_values_in(units, args, kwargs):
+    # prepend/append (np.diff) and to_end/to_begin (np.ediff1d) take part in the
+    # result like the array's own elements: express them in its unit, or refuse
+    args = tuple(v.to_value(units) if isinstance(v, unyt_array) else v for v in args)
+    kwargs = {
+        k: v.to_value(units) if isinstance(v, unyt_array) else v
+        for k, v in kwargs.items()
+    }
+    return args, kwargs
+
+
 @implements(np.diff)
 def diff(a, *args, **kwargs):
+    args, kwargs = _boundary_values_in(getattr(a, "units", NULL_UNIT), args, kwargs)
     return diff_helper(np.diff, a, *args, **kwargs)
 
 
 @implements(np.ediff1d)
 def ediff1d(ary, *args, **kwargs):
+    args, kwargs = _boundary_values_in(getattr(ary, "units", NULL_UNIT), args, kwargs)
     return diff_helper(np.ediff1d, ary, *args, **kwargs)
 
 
